@@ -102,9 +102,9 @@ def step (st : St) (line : String) : St × String :=
     | _, _, _, _, _ => (st, "bad-op")
   | ["snapres", rec, op, ws, cp] =>
     -- one Snapshot call of the resource model, with the clean-up actions of the repaired code
-    let r0 : ColumnVerif.SnapRes.Res := ⟨rec == "1", 10, 10⟩
+    let r0 : ColumnVerif.SnapRes.Res := ⟨rec == "1", 10, 10, 10⟩
     let (r1, err) := ColumnVerif.SnapRes.snapshot ColumnVerif.SnapRes.SnapCfg.good r0 ⟨op == "1", ws == "1", cp == "1"⟩
-    (st, s!"rec={r1.recorder} dfd={(r1.fds : Int) - 10} dtemp={(r1.temps : Int) - 10} err={err}")
+    (st, s!"rec={r1.recorder} dfd={(r1.fds : Int) - 10} dtemp={(r1.temps : Int) - 10} dgo={(r1.workers : Int) - 10} err={err}")
   | ["vacuum", now, present, hex] =>
     -- the decision one vacuum pass takes for a row: clock reading, is a deadline value stored, its 8 bytes
     match now.toInt?, unhex hex with
